@@ -267,7 +267,7 @@ func monC01(tr *Trace, br map[string]int) (out []Violation) {
 		}
 		for k := range keys {
 			h := strings.SplitN(k, "|", 2)[0]
-			if h == "pool" || h == "distr" {
+			if h == "pool" || h == "distr" || !trackedDenom(k[strings.Index(k, "|")+1:]) {
 				continue
 			}
 			if strings.HasPrefix(k[strings.Index(k, "|")+1:], "=sbt/") && c.pre.Bal[k] == nil && c.post.Bal[k] == nil {
@@ -301,7 +301,17 @@ func monC01(tr *Trace, br map[string]int) (out []Violation) {
 	return out
 }
 
-func contractOf(t *Tenant) string { return t.Contract }
+func contractOf(t *Tenant) string {
+	if t.Contract == "auto" {
+		return fmt.Sprintf("auto.%d", t.Id)
+	}
+	return t.Contract
+}
+
+// trackedDenom: balances are dumped only for these denominations
+func trackedDenom(tok string) bool {
+	return tok == "=uusdc" || tok == "=asetl" || tok == "=uerc" || strings.HasPrefix(tok, "=sbt/")
+}
 
 // ---------- C02 ----------
 
@@ -943,6 +953,15 @@ func monC11(tr *Trace, br map[string]int) (out []Violation) {
 			// expected resolution: walk the queue
 			bal := map[string]*big.Int{}
 			var exp []uint64
+			untracked := false
+			for _, u := range q {
+				if !trackedDenom(u.Denom) {
+					untracked = true
+				}
+			}
+			if untracked {
+				continue // the treasury balance of an untracked denomination is not observable in the dump
+			}
 			for _, u := range q {
 				due := new(big.Int).Add(new(big.Int).SetUint64(u.Created), new(big.Int).SetUint64(ten.Period))
 				if due.Cmp(new(big.Int).SetUint64(c.pre.H)) > 0 {
